@@ -23,6 +23,8 @@ type Req struct {
 // Case is a sequence of requests.
 type Case struct {
 	Reqs []Req `json:"reqs"`
+	// Parallel sends the requests of the case at the same time instead of one after the other.
+	Parallel bool `json:"parallel,omitempty"`
 }
 
 // Methods are the client-facing methods plus the key-generation ones (called as a non-peer).
